@@ -3,7 +3,7 @@
  *
  * Links the rebuilt src/set.c only; xmalloc() is provided here (xfree is a macro for free()).
  *
- *   h_set bfs    -c <cmp> -n <keys> -o <trace> [-p i/n] [-t <transitions>]
+ *   h_set bfs    -c <cmp> -n <keys> -o <trace> [-p i/n | -P n] [-t <transitions>]
  *        own breadth-first exploration of the REAL structure: every call from every reachable
  *        tree shape (dedup by shape).  For the i-th part of the shapes, logs
  *          Reset, the calls of a shortest path to the shape, Mark,
@@ -288,10 +288,13 @@ static const char *opname(char o)
 
 static char begin_line[256];
 static volatile int in_call;
+static FILE *outs[64];
 static void crash_flush(void)
 {
-    if (in_call && out) { in_call = 0; fputs(begin_line, out); fflush(out); }
-    else if (out) fflush(out);
+    int i;
+    if (in_call && out) { in_call = 0; fputs(begin_line, out); }
+    if (out) fflush(out);
+    for (i = 0; i < 64; i++) if (outs[i] && outs[i] != out) fflush(outs[i]);
 }
 void __asan_on_error(void) { crash_flush(); }
 static void on_signal(int sig)
@@ -303,6 +306,13 @@ static void on_signal(int sig)
 }
 
 static unsigned long n_calls;
+static unsigned long st_op[6], st_cleanups, st_replaced, st_hit, st_miss;
+static int opidx(char o) { return o == 'I' ? 0 : o == 'F' ? 1 : o == 'L' ? 2 : o == 'D' ? 3 : o == 'C' ? 4 : 5; }
+static void print_stats(void)
+{
+    printf("\"ops\":{\"ins\":%lu,\"find\":%lu,\"lower\":%lu,\"rem\":%lu,\"clear\":%lu,\"iter\":%lu},\"cleanup_calls\":%lu,\"replacing_inserts\":%lu,\"hits\":%lu,\"misses\":%lu",
+           st_op[0], st_op[1], st_op[2], st_op[3], st_op[4], st_op[5], st_cleanups, st_replaced, st_hit, st_miss);
+}
 
 /* returns 0, or -1 if the script asks for something the API forbids (CMP_PTR re-insertion) */
 static int do_op(struct opd op, int log, int b)
@@ -347,6 +357,9 @@ static int do_op(struct opd op, int log, int b)
     default: break;
     }
     if (log) {
+        st_op[opidx(op.o)]++; st_cleanups += ncleaned;
+        if (op.o == 'I' && ncleaned) st_replaced++;
+        if (op.o == 'F' || op.o == 'L' || op.o == 'D') { if (res) st_hit++; else st_miss++; }
         lp = 0;
         EMIT("{\"e\":\"Op\",\"o\":\"%s\",\"k\":%d,\"nd\":%d,\"id\":%d,\"b\":%d,\"res\":%d,\"cl\":[", opname(op.o), op.k, op.nd, id, b, res);
         for (i = 0; i < ncleaned; i++) EMIT("%s%d", i ? "," : "", cleaned[i]);
@@ -399,8 +412,10 @@ static unsigned shape_hash(const int *s, int n)
 }
 static int shape_lookup(const int *s, int n, int add, int parent, struct opd op)
 {
-    unsigned i = shape_hash(s, n);
+    unsigned i;
     int j;
+    if (n > MAXSHAPE) n = MAXSHAPE;
+    i = shape_hash(s, n);
     for (;; i = (i + 1) & ((1u << shbits) - 1)) {
         int idx = shash[i];
         if (idx < 0) break;
@@ -411,13 +426,29 @@ static int shape_lookup(const int *s, int n, int add, int parent, struct opd op)
     }
     if (!add) return -1;
     if (nshapes == capshapes) { capshapes = capshapes ? capshapes * 2 : 4096; shapes = realloc(shapes, capshapes * sizeof(*shapes)); }
-    if (n > MAXSHAPE || nshapes > (1 << (shbits - 1))) { fprintf(stderr, "h_set: shape table overflow\n"); _exit(2); }
+    if (n > MAXSHAPE) n = MAXSHAPE;     /* a malformed shape: recorded truncated, never expanded (see expandable()) */
     shapes[nshapes].n = n;
     for (j = 0; j < n; j++) shapes[nshapes].s[j] = (signed char)s[j];
     shapes[nshapes].parent = parent; shapes[nshapes].op = op;
     shapes[nshapes].depth = parent < 0 ? 0 : shapes[parent].depth + 1;
     shash[i] = nshapes;
     return nshapes++;
+}
+
+/* Only shapes that can be a set over the key universe are expanded: at most nkeys nodes, every key at
+   most once, no dangling link.  Anything else (a corrupted structure) is still logged as the result of the
+   call that produced it - TLC judges that line - but not used as a starting point, and the exploration
+   stops at shape_cap shapes, so that a broken tree cannot make the exploration diverge. */
+static int shape_cap = 60000;     /* set in bfs(): number of search trees over subsets of the universe + 64 */
+static int expandable(const struct shp *s)
+{
+    int i, seen[256] = { 0 };
+    if (s->n > 2 * nkeys + 1) return 0;
+    for (i = 0; i < s->n; i++) {
+        if (s->s[i] < 0) return 0;
+        if (s->s[i] > 0 && seen[(int)s->s[i]]++) return 0;
+    }
+    return 1;
 }
 
 static void print_shape(FILE *f, const signed char *s, int n)
@@ -440,14 +471,27 @@ static int bfs(int part, int nparts, FILE *trans)
 {
     struct opd none = { 0, 0, 0, 0 };
     int si, empty[1] = { 0 };
-    unsigned long logged = 0, hist = 0;
+    unsigned long logged = 0, hist = 0, skipped = 0;
+    int capped = 0;
+    {   /* sum over k of C(nkeys, k) * Catalan(k): more shapes than that cannot all be search trees */
+        double total = 0, binom = 1, cat = 1;
+        int k;
+        for (k = 0; k <= nkeys; k++) {
+            total += binom * cat;
+            binom = binom * (nkeys - k) / (k + 1);
+            cat = cat * 2 * (2 * k + 1) / (k + 2);
+        }
+        shape_cap = total + 64 > 400000 ? 400000 : (int)total + 64;
+    }
     shash = malloc(sizeof(int) << shbits);
     memset(shash, 0xff, sizeof(int) << shbits);
     shape_lookup(empty, 1, 1, -1, none);
     for (si = 0; si < nshapes; si++) {
-        int mine = (si % nparts) == part;
+        int mine = part < 0 ? 1 : (si % nparts) == part;
+        if (part < 0) out = outs[si % nparts];
         int oi, k, nd;
         struct opd ops[2048]; int nops = 0;
+        if (!expandable(&shapes[si])) { skipped++; continue; }
         for (k = 1; k <= nkeys; k++) {
             struct opd o = { 'I', k, 0, -1 }; ops[nops++] = o;
             o.o = 'F'; ops[nops++] = o;
@@ -474,7 +518,8 @@ static int bfs(int part, int nparts, FILE *trans)
             run_path(si, 0);
             if (do_op(ops[oi], mine, 1) < 0) continue;     /* CMP_PTR: the same node cannot be inserted twice */
             if (mine) logged++;
-            idx = shape_lookup(shape_buf, shape_n, 1, si, ops[oi]);
+            idx = shape_lookup(shape_buf, shape_n, nshapes < shape_cap, si, ops[oi]);
+            if (idx < 0) { capped = 1; continue; }
             if (trans) {
                 print_shape(trans, shapes[si].s, shapes[si].n);
                 fprintf(trans, ";%s;%d;%d;", opname(ops[oi].o), ops[oi].k, ops[oi].nd);
@@ -484,8 +529,10 @@ static int bfs(int part, int nparts, FILE *trans)
         }
     }
     teardown();
-    printf("{\"shapes\":%d,\"calls\":%lu,\"logged\":%lu,\"histories\":%lu,\"maxdepth\":%d}\n",
-           nshapes, n_calls, logged, hist, shapes[nshapes - 1].depth);
+    printf("{\"shapes\":%d,\"calls\":%lu,\"logged\":%lu,\"histories\":%lu,\"maxdepth\":%d,\"not_expanded\":%lu,\"capped\":%d,",
+           nshapes, n_calls, logged, hist, shapes[nshapes - 1].depth, skipped, capped);
+    print_stats();
+    printf("}\n");
     return 0;
 }
 
@@ -498,6 +545,7 @@ static int script(const char *path)
     unsigned long logged = 0, hist = 0, drift = 0, compared = 0, lineno = 0;
     long first_drift = -1;
     int pending_b = 0;
+    long stopped = 0;
     if (!f) { perror(path); return 2; }
     while (fgets(buf, sizeof(buf), f)) {
         struct opd op = { 0, 0, 0, -1 };
@@ -537,13 +585,23 @@ static int script(const char *path)
             if (nsince == capsince) { capsince = capsince ? capsince * 2 : 256; since = realloc(since, capsince * sizeof(*since)); }
             since[nsince++] = op;
         }
-        if (do_op(op, 1, pending_b) < 0) { fprintf(stderr, "h_set: forbidden re-insertion (line %lu)\n", lineno); return 2; }
+        if (do_op(op, 1, pending_b) < 0) {
+            /* CMP_PTR: the script inserts a node that is still in the set or was freed, i.e. the structure no
+               longer is what the (well-formed) script assumes; stop here - the earlier lines tell TLC why */
+            fprintf(stderr, "h_set: node of key %d cannot be inserted (script line %lu): history stopped\n", op.k, lineno);
+            stopped = (long)lineno;
+            break;
+        }
         pending_b = 0;
         logged++;
     }
     teardown();
-    printf("{\"calls\":%lu,\"logged\":%lu,\"histories\":%lu,\"shape_compared\":%lu,\"shape_drift\":%lu,\"first_drift_line\":%ld}\n",
-           n_calls, logged, hist, compared, drift, first_drift);
+    free(since);
+    fclose(f);
+    printf("{\"calls\":%lu,\"logged\":%lu,\"histories\":%lu,\"shape_compared\":%lu,\"shape_drift\":%lu,\"first_drift_line\":%ld,\"stopped_at_line\":%ld,",
+           n_calls, logged, hist, compared, drift, first_drift, stopped);
+    print_stats();
+    printf("}\n");
     return 0;
 }
 
@@ -581,7 +639,7 @@ static void log_keys(void)
 int main(int argc, char **argv)
 {
     const char *mode = argc > 1 ? argv[1] : "", *outp = NULL, *scr = NULL, *transp = NULL;
-    int i, part = 0, nparts = 1, rc;
+    int i, part = 0, nparts = 1, rc, split = 0;
     FILE *trans = NULL;
     for (i = 2; i + 1 < argc; i += 2) {
         if (!strcmp(argv[i], "-c")) {
@@ -593,23 +651,40 @@ int main(int argc, char **argv)
         else if (!strcmp(argv[i], "-s")) scr = argv[i + 1];
         else if (!strcmp(argv[i], "-t")) transp = argv[i + 1];
         else if (!strcmp(argv[i], "-p")) sscanf(argv[i + 1], "%d/%d", &part, &nparts);
+        else if (!strcmp(argv[i], "-P")) { nparts = atoi(argv[i + 1]); split = 1; }
     }
     if (!outp || nkeys < 1 || nkeys > 250 || nparts < 1) {
         fprintf(stderr, "usage: h_set bfs|script -c int|charp|voidp|ptr -n keys -o trace [-p i/n] [-t transitions] [-s script]\n");
         return 2;
     }
-    out = fopen(outp, "w");
-    if (!out) { perror(outp); return 2; }
-    setvbuf(out, NULL, _IOFBF, 1 << 20);
+    if (split) {
+        /* bfs -P n: all parts in one run, written to <trace>.0 .. <trace>.n-1 */
+        char name[4096];
+        if (nparts > 64) return 2;
+        for (i = 0; i < nparts; i++) {
+            snprintf(name, sizeof(name), "%s.%d", outp, i);
+            outs[i] = out = fopen(name, "w");
+            if (!out) { perror(name); return 2; }
+            setvbuf(out, NULL, _IOFBF, 1 << 18);
+        }
+        part = -1;
+    } else {
+        out = fopen(outp, "w");
+        if (!out) { perror(outp); return 2; }
+        setvbuf(out, NULL, _IOFBF, 1 << 20);
+    }
     if (transp) trans = fopen(transp, "w");
     htab = calloc(HSIZE, sizeof(*htab));
     signal(SIGABRT, on_signal); signal(SIGALRM, on_signal);
     alarm(20);
-    log_keys();
-    if (!strcmp(mode, "bfs")) rc = bfs(part, nparts, trans);
+    if (split) { for (i = 0; i < nparts; i++) { out = outs[i]; log_keys(); } }
+    else log_keys();
+    if (!strcmp(mode, "bfs") && nkeys > 15) { fprintf(stderr, "h_set: bfs supports at most 15 keys\n"); rc = 2; }
+    else if (!strcmp(mode, "bfs")) rc = bfs(part, nparts, trans);
     else if (!strcmp(mode, "script") && scr) rc = script(scr);
     else { fprintf(stderr, "h_set: unknown mode\n"); rc = 2; }
     if (trans) fclose(trans);
-    fclose(out);
+    if (split) { for (i = 0; i < nparts; i++) fclose(outs[i]); }
+    else fclose(out);
     return rc;
 }
